@@ -292,7 +292,7 @@ func (g *Gen) stringCmd(now int64) []string {
 	case 22, 23, 24:
 		return []string{g.name(g.pick("INCRBY", "DECRBY")), k, g.anyInt()}
 	case 25:
-		return []string{g.name("INCRBYFLOAT"), k, g.pick("0.5", "1", "-2.25", "3", "1e3", "abc", "nan", "inf", "-inf", "1e308", "0.1", "")}
+		return []string{g.name("INCRBYFLOAT"), k, g.pick("0.5", "1", "-2.25", "3", "1e3", "abc", "nan", "inf", "-inf", "1e30", "0.1", "")}
 	case 26:
 		a := []string{g.name("LCS"), k, g.key()}
 		switch g.r.IntN(5) {
@@ -461,7 +461,7 @@ func (g *Gen) hashCmd() []string {
 	case 16, 17, 18:
 		return []string{g.name("HINCRBY"), k, g.field(), g.anyInt()}
 	case 19:
-		return []string{g.name("HINCRBYFLOAT"), k, g.field(), g.pick("0.5", "1", "-2.25", "1e3", "abc", "nan", "inf", "1e308")}
+		return []string{g.name("HINCRBYFLOAT"), k, g.field(), g.pick("0.5", "1", "-2.25", "1e3", "abc", "nan", "inf", "1e30")}
 	case 20, 21, 22:
 		a := []string{g.name("HRANDFIELD"), k}
 		if g.chance(4) {
